@@ -4,7 +4,9 @@
 EXTENDS BaseN, TLC, Json
 
 CONSTANTS MaxLen,      \* longest text pushed into a decoder
-          MaxOct       \* longest octet string encoded
+          MaxOct,      \* longest octet string encoded
+          Deep32       \* TRUE: only Base32 over a 4-character alphabet, so that
+                       \* MaxLen can exceed its 8-character group
 
 VARIABLES codec, st, txt, res
 vars == <<codec, st, txt, res>>
@@ -13,11 +15,13 @@ vars == <<codec, st, txt, res>>
 \* case where decoding is case-insensitive, '=', a non-alphabet ASCII
 \* character, a non-ASCII character
 Chars(c) ==
+  IF Deep32 THEN {48, 86, 75, 61}                           \* 0 V K(=20, mixed bits) =
+  ELSE
   CASE c = "b16" -> {48, 70, 97, 53, 71, 61, 128}            \* 0 F a 5 G = U+0080
     [] c = "b32" -> {48, 86, 118, 65, 87, 61, 128}           \* 0 V v A W = U+0080
     [] c = "b64" -> {65, 47, 81, 102, 61, 33, 128}           \* A / Q f = ! U+0080
 
-Init == /\ codec \in Codecs
+Init == /\ codec \in (IF Deep32 THEN {"b32"} ELSE Codecs)
         /\ st = InitOf(codec)
         /\ txt = <<>>
         /\ res = "ok"
@@ -52,7 +56,7 @@ SeqsUpTo(S, n) == IF n = 0 THEN {<<>>}
                   ELSE LET P == SeqsUpTo(S, n - 1)
                        IN P \cup {Append(p, x) : p \in {q \in P : Len(q) = n - 1}, x \in S}
 
-RoundTrip == (codec = "b16" /\ txt = <<>>) =>   \* evaluated once, in one initial state
+RoundTrip == (codec = "b16" /\ txt = <<>> /\ ~Deep32) =>   \* evaluated once, in one initial state
                \A c \in Codecs : \A o \in SeqsUpTo(Octs, MaxOct) :
                   DecOf(c, EncOf(c, o)) = Ok(o)
 
@@ -62,11 +66,20 @@ RoundTrip == (codec = "b16" /\ txt = <<>>) =>   \* evaluated once, in one initia
 \* The zone-file reader path is exercised for non-empty texts made of token
 \* characters; an empty Base32 blob cannot be written in an NSEC3 record.
 Scannable == Len(txt) > 0 /\ (codec = "b32" => DecOf(codec, txt) # Ok(<<>>))
+\* Users of the codecs that wrap them in glue code of their own (NSEC3 salt
+\* in zone-file, string-token and FromStr form; OwnerHash::from_str; the SVCB
+\* "ech" parameter, which must not be empty): each must accept exactly what
+\* the codec function accepts and yield its octets.
+UsersExp(c, t) ==
+  CASE c = "b16" -> [salt_zf |-> Dec16(t), salt_iter |-> Dec16(t), salt_str |-> Dec16(t)]
+    [] c = "b32" -> [ohash_str |-> Dec32(t)]
+    [] c = "b64" -> [ech_zf |-> IF Dec64(t) = Ok(<<>>) THEN Err ELSE Dec64(t)]
 EmitDec == PrintT("CASE " \o ToJson(
               [in  |-> [kind |-> "dec", codec |-> codec, text |-> txt, scan |-> Scannable],
                exp |-> [fin |-> FinOf(codec, st), dec |-> DecOf(codec, txt),
                         conv |-> DecOf(codec, txt), sticky |-> TRUE]
-                       @@ (IF Scannable THEN [scan |-> DecOf(codec, txt), iscan |-> DecOf(codec, txt)]
+                       @@ (IF Scannable THEN [scan |-> DecOf(codec, txt), iscan |-> DecOf(codec, txt),
+                                              users |-> UsersExp(codec, txt)]
                            ELSE <<>>)]))
 
 \* Alphabet-table probe: every code point 0..384 (both sides of every range
@@ -78,13 +91,23 @@ ProbeTexts(c) ==
     [] c = "b32" -> {<<x, 48>> : x \in ProbeChars} \cup {<<48, x>> : x \in ProbeChars}
     [] c = "b64" -> {<<x, 65, 65, 65>> : x \in ProbeChars} \cup {<<65, x, 65, 65>> : x \in ProbeChars}
                     \cup {<<65, 65, x, 65>> : x \in ProbeChars} \cup {<<65, 65, 65, x>> : x \in ProbeChars}
-EmitProbe == (codec = "b16" /\ txt = <<>>) =>
+EmitProbe == (codec = "b16" /\ txt = <<>> /\ ~Deep32) =>
    \A c \in Codecs : \A t \in ProbeTexts(c) :
       PrintT("CASE " \o ToJson(
               [in  |-> [kind |-> "dec", codec |-> c, text |-> t, scan |-> FALSE],
                exp |-> [fin |-> FinOf(c, RunPushes(c, InitOf(c), t)), dec |-> DecOf(c, t),
                         conv |-> DecOf(c, t), sticky |-> TRUE]]))
-ProbeLaw == (codec = "b16" /\ txt = <<>>) =>    \* machines = functions on the probe texts too
+\* Encode-table probe: every octet value at every position of a 5-octet
+\* string (5 positions = every bit alignment of Base32 and Base64).
+EncProbe == {[i \in 1..5 |-> IF i = p THEN v ELSE 165] : p \in 1..5, v \in 0..255}
+EmitEncProbe == (codec = "b16" /\ txt = <<>> /\ ~Deep32) =>
+   \A c \in Codecs : \A o \in EncProbe :
+      PrintT("CASE " \o ToJson(
+              [in  |-> [kind |-> "enc", codec |-> c, octets |-> o],
+               exp |-> [enc |-> EncOf(c, o), rt |-> Ok(o)]]))
+EncProbeLaw == (codec = "b16" /\ txt = <<>> /\ ~Deep32) =>
+   \A c \in Codecs : \A o \in EncProbe : DecOf(c, EncOf(c, o)) = Ok(o)
+ProbeLaw == (codec = "b16" /\ txt = <<>> /\ ~Deep32) =>    \* machines = functions on the probe texts too
    \A c \in Codecs : \A t \in ProbeTexts(c) : FinOf(c, RunPushes(c, InitOf(c), t)) = DecOf(c, t)
 
 EmitEnc == codec = "b16" /\ txt = <<>> =>
